@@ -4,7 +4,7 @@
  *   svt_scn out=<prefix> w=<W> h=<H> n=<frames> [key=value ...]
  * keys: content=<0 gradient|1 noise|2 moving blocks|3 flat|4 extremes|5 screen-like|6 static column + noisy texture + fast squares> cseed=<int>
  *       bits=<8|10> stride_pad=<int> padfill=<0..255|256 random> scribble=<0|1> (overwrite+free caller buffer after send)
- *       pace=<0 drain at end|1 poll after every send|k>=2 poll every k sends|-1 random polling> pseed=<int>
+ *       pace=<0 drain at end|1 poll after every send|k>=2 poll every k sends|-1 random polling> pseed=<int> delay_us=<pause between a submission and the poll that follows it>
  *       recon=<0|1> stat=<0|1> decode=<0|1> dec_threads=<int> dec16=<0|1> eos_mode=<0 separate EOS buffer|1 flag on last picture>
  *       teardown_after=<-1 normal | j : stop after j sends without draining>   f<idx>=<val> : configuration cell override
  *       dumprecon=<0|1> dumpdec=<0|1> (write raw planes)  cpu=<hex use_cpu_flags>
@@ -34,7 +34,7 @@ static unsigned long long fnv(const unsigned char *b, size_t n, unsigned long lo
 static unsigned rs;
 static unsigned rnd(void) { rs ^= rs << 13; rs ^= rs >> 17; rs ^= rs << 5; return rs; }
 
-static int W, Hh, N, content = 2, cseed = 1, bits = 8, stride_pad = 0, padfill = 0, scribble = 0, pace = 1, pseed = 1;
+static int W, Hh, N, content = 2, cseed = 1, bits = 8, stride_pad = 0, padfill = 0, scribble = 0, pace = 1, pseed = 1, delay_us = 0;
 static int recon = 1, stat = 0, decode = 1, dec_threads = 1, dec16 = 0, eos_mode = 0, teardown_after = -1, dumprecon = 0, dumpdec = 0;
 
 static int sample(int k, int x, int y, int plane) {
@@ -152,7 +152,7 @@ int main(int argc, char **argv) {
         else if (!strcmp(k, "w")) W = atoi(v); else if (!strcmp(k, "h")) Hh = atoi(v); else if (!strcmp(k, "n")) N = atoi(v);
         else if (!strcmp(k, "content")) content = atoi(v); else if (!strcmp(k, "cseed")) cseed = atoi(v); else if (!strcmp(k, "bits")) bits = atoi(v);
         else if (!strcmp(k, "stride_pad")) stride_pad = atoi(v); else if (!strcmp(k, "padfill")) padfill = atoi(v); else if (!strcmp(k, "scribble")) scribble = atoi(v);
-        else if (!strcmp(k, "pace")) pace = atoi(v); else if (!strcmp(k, "pseed")) pseed = atoi(v); else if (!strcmp(k, "recon")) recon = atoi(v);
+        else if (!strcmp(k, "pace")) pace = atoi(v); else if (!strcmp(k, "delay_us")) delay_us = atoi(v); else if (!strcmp(k, "pseed")) pseed = atoi(v); else if (!strcmp(k, "recon")) recon = atoi(v);
         else if (!strcmp(k, "stat")) stat = atoi(v); else if (!strcmp(k, "decode")) decode = atoi(v); else if (!strcmp(k, "dec_threads")) dec_threads = atoi(v);
         else if (!strcmp(k, "dec16")) dec16 = atoi(v); else if (!strcmp(k, "eos_mode")) eos_mode = atoi(v); else if (!strcmp(k, "teardown_after")) teardown_after = atoi(v);
         else if (!strcmp(k, "suffix")) suffix = atoi(v);
@@ -207,6 +207,7 @@ int main(int argc, char **argv) {
         free(base);
         if (teardown_after >= 0 && k + 1 >= teardown_after) break;
         int dopoll = pace == 1 || (pace >= 2 && (k + 1) % pace == 0) || (pace == -1 && (rnd() & 3) == 0);
+        if (delay_us > 0) usleep((unsigned)(delay_us < 0 ? 0 : ((rnd() & 1) ? delay_us : delay_us / 4)));
         if (dopoll) { if (poll_packets(0) < 0) break; poll_recon(); }
     }
     if (teardown_after < 0) {
